@@ -1743,13 +1743,16 @@ class PyCdlib:
             # given a duplicate child.  However, we allow duplicate children if
             # and only the last child is the same; this represents a very large
             # file.  That is only the case when the existing record describes
-            # a completely filled extent; anything else is a genuine duplicate.
+            # a completely filled extent and the new record continues the same
+            # data (it starts at an offset into it); anything else is a genuine
+            # duplicate.
             existing = None
             for rec in child.parent.children:
                 if rec.file_ident == child.file_ident:
                     existing = rec
             if not child.is_dir() and existing is not None and \
-               not existing.is_dir() and existing.get_data_length() == 0xfffff800:
+               not existing.is_dir() and existing.get_data_length() == 0xfffff800 and \
+               child.inode is not None and child.inode.fp_offset > 0:
                 try_long_entry = True
             else:
                 raise
@@ -3248,6 +3251,9 @@ class PyCdlib:
                              vd.sequence_number(), rr, rr_name, xa, file_mode,
                              time.time())
 
+            # The data this record describes tells a further extent of a very
+            # large file apart from a duplicate name.
+            new_rec.inode = data_ino
             num_bytes_to_add += self._add_child_to_dr(new_rec)
             num_bytes_to_add += self._update_rr_ce_entry(new_rec)
         else:
